@@ -342,10 +342,11 @@ def run(ctx):
         e = ctx.fn_term(DES, 'DES.enc')
         d = ctx.fn_term(DES, 'DES.dec')
         rng = ctx.spec_expr('range(16)')
-        rev = ctx.spec_expr('reversed(range(16))')
         fors = [x for x in T.walk(e) if x[0] == 'for']
         ctx.check('DES.enc rounds', len(fors) == 1 and fors[0][2] == rng, 'encryption does not run rounds 0..15 in order', ctx.where(DES, 'DES.enc'))
-        e2 = T.substitute(e, {rng: rev, ('it', 1, 'num'): ('it', 1)})
+        # canonical iteration: `for r in reversed(range(16))` is the index loop k=0..15 with r = 15-k
+        it1 = ('it', 1, 'num')
+        e2 = T.substitute(e, {it1: T.mk_bin('+', T.C(15), T.mk_neg(it1))})
         # the two methods may name their block parameter differently: compare bodies under dec's signature
         e2 = ('fn', d[1], e2[2])
         ctx.same_term('DES.dec mirrors enc', d, e2, ctx.where(DES, 'DES.dec'), what='DES.dec must be DES.enc with the round order reversed:')
@@ -406,9 +407,15 @@ def run(ctx):
         te, td = e.term(), d.term()
         fe = [x for x in e.effects if x[0] == 'for']
         fd = [x for x in d.effects if x[0] == 'for']
-        ctx.check('Threefish round order', len(fe) == 1 and len(fd) == 1 and fe[0][2] == ctx.spec_expr('range(self.Nr)', {'self': SELF})
-                  and fd[0][2] == ctx.spec_expr('reversed(range(self.Nr))', {'self': SELF}),
+        rng = ctx.spec_expr('range(self.Nr)', {'self': SELF})
+        # canonical iteration: dec's `for d in reversed(range(Nr))` is the index loop k=0..Nr-1 with d = Nr-1-k;
+        # rewriting k -> Nr-1-k in dec (an involution) must give enc's round variable wherever the round number is used
+        it1 = ('it', 1, 'num')
+        rev = T.mk_bin('+', T.mk_bin('+', ('attr', SELF, 'Nr'), T.C(-1), OPT_ARITH), T.mk_neg(it1, OPT_ARITH), OPT_ARITH)
+        uses_rev = any(x == rev for x in T.walk(td)) and not any(x == rev for x in T.walk(te))
+        ctx.check('Threefish round order', len(fe) == 1 and len(fd) == 1 and fe[0][2] == rng and fd[0][2] == rng and uses_rev,
                   'enc must run d=0..Nr-1 and dec the same rounds in reverse', ctx.where(TF, 'Threefish.dec'))
+        td = T.substitute(td, {it1: rev}, OPT_ARITH)
         ks = lambda t: sorted(set(T.show(x[2][0]) for x in T.walk(t) if x[0] == 'call' and x[1] == ('attr', SELF, '__ks')))
         ctx.check('Threefish key injection symmetric', ks(te) == ks(td) and len(ks(te)) == 2,
                   'subkey indices differ between enc %s and dec %s' % (ks(te), ks(td)), ctx.where(TF, 'Threefish.dec'))
